@@ -74,13 +74,14 @@ def simple_cycles(nodes):
 
 
 def structures(tree, self_pairs, kinds=(0, 1, 2, 3), weak_shift=False):
-    """all edge assignments {(u, v): kind} for the placement (kind 0 none, 1 shifted-by-k edge, 2 weak, 3 both)"""
+    """all edge assignments {(u, v): kind} for the placement (kind 0 none, 1 shifted-by-k edge, 2 weak, 3 both,
+    4 an async_requests connection without attribute pairs: a zero-delay dependency that nothing resolves)"""
     paths = paths_of(tree)
     nodes = sorted(paths)
     pairs = [(u, v) for u in nodes for v in nodes if self_pairs or u != v]
     doms = []
     for (u, v) in pairs:
-        ks = [k for k in kinds if k in (0, 1) or weak_allowed(paths, u, v)]
+        ks = [k for k in kinds if k in (0, 1) or (k == 4 and u != v) or (k in (2, 3) and weak_allowed(paths, u, v))]
         doms.append(ks)
     out = []
     for combo in itertools.product(*doms):
@@ -126,6 +127,11 @@ def cycles(tree, structs, salt=0, weak_shift=False):
                             k = eng.int(f'k.{u}{v}', 0)
                             ks[key] = k
                             w.connect(ents[u], ents[v], ('oe', 'it'), time_shifted=k)
+                        if kind == 4:
+                            import warnings
+                            with warnings.catch_warnings():
+                                warnings.simplefilter('ignore')
+                                w.connect(ents[u], ents[v], async_requests=True)
                         if kind in (2, 3):
                             if weak_shift:
                                 kw = eng.int(f'kw.{u}{v}', 0)
@@ -141,6 +147,8 @@ def cycles(tree, structs, salt=0, weak_shift=False):
                 def hop_unresolved(u, v, cyc):
                     kind = st.get(f'{u}>{v}', 0)
                     alts = []
+                    if kind == 4:
+                        return z3.BoolVal(True)      # asynchronous requests: v waits for u's step of the same time, nothing resolves that
                     if kind in (1, 3):
                         alts.append(term(ks[f'{u}>{v}'] == 0))
                     if kind in (2, 3):
@@ -209,6 +217,16 @@ def jobs(tier, seed=0):
         sts = structures(tree, self_pairs=True, kinds=(0, 1, 2) if q else (0, 1, 2, 3))
         for ci, ch in enumerate(chunks(sts, 8)):
             out.append({'id': f'n2|t{ti}|c{ci}', 'harness': 'vk.kernels.c06:cycles', 'params': {'tree': tree, 'structs': ch}, 'budget_s': 300})
+    # asynchronous-requests connections as edges of the dependency graph (two simulators: all structures; three: a rotating slice)
+    for ti, tree in enumerate(TREES2):
+        sts = [x for x in structures(tree, self_pairs=False, kinds=(0, 1, 2, 4)) if 4 in x.values()]
+        for ci, ch in enumerate(chunks(sts, 8)):
+            out.append({'id': f'a2|t{ti}|c{ci}', 'harness': 'vk.kernels.c06:cycles', 'params': {'tree': tree, 'structs': ch}, 'budget_s': 300})
+    for ti, tree in enumerate(TREES3):
+        sts = [x for x in structures(tree, self_pairs=False, kinds=(0, 1, 4)) if 4 in x.values()]
+        sel = [x for i, x in enumerate(sts) if (i + seed + ti) % (24 if q else 3) == 0]
+        for ci, ch in enumerate(chunks(sel, 8)):
+            out.append({'id': f'a3|t{ti}|c{ci}', 'harness': 'vk.kernels.c06:cycles', 'params': {'tree': tree, 'structs': ch}, 'budget_s': 300})
     # three simulators, no self-pairs
     for ti, tree in enumerate(TREES3):
         sts = structures(tree, self_pairs=False, kinds=(0, 1, 2))
